@@ -349,3 +349,31 @@ M('c12d-setter-wrong-field', 'C12', 'break', CFGC,
 M('c12d-defaults-loop-other-field', 'C12', 'break', CFGC,
   '            cfg->decoder_cfgs[i].utf8_invalid_unwanted = unwanted;',
   '            cfg->decoder_cfgs[i].url_encoding_invalid_unwanted = unwanted;', 'C12.d')
+
+# ---------------- C13
+M('c13a-scheme-for-slash', 'C13', 'break', UT, "    if (data[0] != '/') {\n        // Parse scheme", "    if (data[0] != '/' || (len > 1 && data[1] == '/')) {\n        // Parse scheme", 'C13.a')
+M('c13a-authority-without-scheme', 'C13', 'break', UT, "    if ((*uri)->scheme != NULL)\n        if ((pos + 2 < len)", "    if (((*uri)->scheme != NULL) || (len > 2))\n        if ((pos + 2 < len)", 'C13.a')
+M('c13b-port-65536-accepted', 'C13', 'break', UT, "    } else if ((port_parsed > 0) && (port_parsed < 65536)) {\n        // Valid port number.\n        *port = (int) port_parsed;", "    } else if ((port_parsed > 0) && (port_parsed <= 65536)) {\n        // Valid port number.\n        *port = (int) port_parsed;", 'C13.b')
+M('c13b-port-zero-accepted-normalize', 'C13', 'break', UT, "        } else if ((port_parsed > 0) && (port_parsed < 65536)) {\n            // Valid port number.\n            normalized->port_number", "        } else if ((port_parsed >= 0) && (port_parsed < 65536)) {\n            // Valid port number.\n            normalized->port_number", 'C13.b')
+M('c13b-out-of-range-not-marked', 'C13', 'break', UT, "        // Port number out of range.\n        *port = -1;\n        *invalid = 1;", "        // Port number out of range.\n        *port = -1;", 'C13.b')
+M('c13c-fragment-from-literal', 'C13', 'break', UT, "        (*uri)->fragment = bstr_dup_mem(data + start, len - start);", "        (*uri)->fragment = (len - start) ? bstr_dup_mem(data + start, len - start) : bstr_dup_c(\"#\");", 'C13.c')
+M('c13a-keep-eq-form', 'C13', 'keep', UT, "    if (data[0] != '/') {\n        // Parse scheme", "    if (!(data[0] == '/')) {\n        // Parse scheme")
+
+# ---------------- C17
+LS, TB, BS = 'htp/htp_list.c', 'htp/htp_table.c', 'htp/bstr.c'
+M('c17a-growth-forgets-last', 'C17', 'break', LS, "        l->first = 0;\n        l->last = l->current_size;\n        l->max_size = new_size;", "        l->first = 0;\n        l->max_size = new_size;", 'C17.a')
+M('c17a-shift-no-wrap', 'C17', 'break', LS, "    l->first++;\n    if (l->first == l->max_size) {\n        l->first = 0;\n    }\n\n    l->current_size--;", "    l->first++;\n\n    l->current_size--;", 'C17.a')
+M('c17a-get-le', 'C17', 'break', LS, "    if (l->first + idx < l->max_size) {", "    if (l->first + idx <= l->max_size) {", 'C17.a')
+M('c17a-get-no-size-check', 'C17', 'break', LS, "    if (idx >= l->current_size) return NULL;\n    \n", "", 'C17.a')
+M('c17a-relinearise-tail-offset', 'C17', 'break', LS, "            memcpy((void *) ((char *) newblock + (l->max_size - l->first) * sizeof (void *)),", "            memcpy((void *) ((char *) newblock + (l->first) * sizeof (void *)),", 'C17.a')
+M('c17a-pop-size-not-decremented-when-wrapped', 'C17', 'break', LS, "    r = l->elements[pos];\n    l->last = pos;\n\n    l->current_size--;", "    r = l->elements[pos];\n    l->last = pos;\n\n    if (pos) l->current_size--;", 'C17.a')
+M('c17a-keep-modulo-wrap', 'C17', 'keep', LS, "    l->elements[(l->first + idx) % l->max_size] = e;", "    l->elements[(l->first + idx) % (l->max_size)] = e;")
+M('c17b-overflow-check-dropped', 'C17', 'break', BS, "            if (((INT64_MAX - d) / base) < rval) {\n                // Overflow\n                return -2;\n            }\n", "", 'C17.b')
+M('c17b-overflow-check-weak', 'C17', 'break', BS, "            if (((INT64_MAX - d) / base) < rval) {", "            if ((INT64_MAX / base) < rval - d) {", 'C17.b')
+M('c17b-chunk-cap-dropped', 'C17', 'break', UT, "    if (chunk_len > INT32_MAX) return -1;\n", "", 'C17.b')
+M('c17b-status-max', 'C17', 'break', 'htp/htp_private.h', "#define HTP_VALID_STATUS_MAX                999", "#define HTP_VALID_STATUS_MAX                9999", 'C17.b')
+M('c17c-get-case-sensitive', 'C17', 'break', TB, "        if (bstr_cmp_nocase(key_candidate, key) == 0) {", "        if (bstr_cmp(key_candidate, key) == 0) {", 'C17.c')
+M('c17c-get-c-last-match', 'C17', 'break', TB, "        if (bstr_cmp_c_nocasenorzero(key_candidate, ckey) == 0) {\n            return element;\n        }", "        if (bstr_cmp_c_nocasenorzero(key_candidate, ckey) == 0) {\n            found = element;\n        }", 'C17.c',
+  edits=[(TB, "        if (bstr_cmp_c_nocasenorzero(key_candidate, ckey) == 0) {\n            return element;\n        }\n    }\n\n    return NULL;", "        if (bstr_cmp_c_nocasenorzero(key_candidate, ckey) == 0) {\n            found = element;\n        }\n    }\n\n    return found;"),
+         (TB, "void *htp_table_get_c(const htp_table_t *table, const char *ckey) {\n    if ((table == NULL)||(ckey == NULL)) return NULL;\n", "void *htp_table_get_c(const htp_table_t *table, const char *ckey) {\n    if ((table == NULL)||(ckey == NULL)) return NULL;\n    void *found = NULL;\n")])
+M('c17c-params-add-variant-mixed', 'C17', 'break', 'htp/htp_transaction.c', "    return htp_table_addk(tx->request_params, param->name, param);", "    if (param->source == HTP_SOURCE_COOKIE) return htp_table_add(tx->request_params, param->name, param);\n    return htp_table_addk(tx->request_params, param->name, param);", 'C17.c')
